@@ -253,6 +253,10 @@ func newUnifySys(r *vcore.Run, u *universe, cfg alphabetConfig, pol ociunify.Rea
 func newUnifySysOrdered(r *vcore.Run, u *universe, cfg alphabetConfig, pol ociunify.ReadPolicy, failAt int, failMember int, firstMember int) *regSys {
 	m0, m1 := ocimem.New(), ocimem.New()
 	var i0, i1 ociregistry.Interface = m0, m1
+	if firstMember == -2 {
+		// members whose upload IDs change with every write (see genIDMember)
+		i0, i1 = newGenIDMember(m0), newGenIDMember(m1)
+	}
 	if firstMember >= 0 {
 		g := newOrderGate()
 		i0 = &gatedMember{Interface: m0, g: g, late: firstMember != 0}
@@ -276,6 +280,9 @@ func newUnifySysOrdered(r *vcore.Run, u *universe, cfg alphabetConfig, pol ociun
 	}
 	if firstMember >= 0 {
 		s.mode += fmt.Sprintf("/member%d-answers-first", firstMember)
+	}
+	if firstMember == -2 {
+		s.mode += "/changing-upload-ids"
 	}
 	diverged := false
 	after := 0 // operations applied after the call during which one member failed
@@ -419,6 +426,7 @@ func c15Check(r *vcore.Run) vcore.Coverage {
 		first := first
 		run(fmt.Sprintf("write/member%d-answers-first", first), func() vstate.System[Op] { return newUnifySysOrdered(r, u, cfg, ociunify.ReadConcurrent, 0, 0, first) }, depth)
 	}
+	run("write/changing-upload-ids", func() vstate.System[Op] { return newUnifySysOrdered(r, u, cfg, ociunify.ReadSequential, 0, 0, -2) }, depth)
 	for k := 1; k <= 3; k++ {
 		for mbr := 0; mbr < 2; mbr++ {
 			k, mbr := k, mbr
@@ -465,6 +473,9 @@ func c15Replay(r *vcore.Run, sub string, raw json.RawMessage) {
 		fmt.Sscanf(c.Mode[i:], "/member%d-fails-call-%d", &failMember, &failAt)
 	}
 	first := -1
+	if strings.Contains(c.Mode, "/changing-upload-ids") {
+		first = -2
+	}
 	if i := strings.Index(c.Mode, "-answers-first"); i > 0 {
 		first = int(c.Mode[i-1] - '0')
 	}
